@@ -1330,9 +1330,11 @@ func (s *State) callSiteAssertsNamed(site ssa.Instruction, key string, names []s
 			x.vars["$"+name] = v
 		}
 		off := len(args) - len(names)
+		x.shadow = map[string]bool{}
 		for j, n := range names {
 			if off+j >= 0 && off+j < len(args) {
 				x.vars[n] = args[off+j]
+				x.shadow[n] = true
 			}
 		}
 		v := x.eval(ca.Clause.Expr)
